@@ -171,15 +171,34 @@ def _make_functools(I):
 
 
 def _bitop(I, op, a, b):
-    # python ints/bools: the real bitwise operator (True & 2 == 0); everything else through the interpreter
-    if isinstance(a, (bool, int)) and isinstance(b, (bool, int)):
-        return (a & b) if isinstance(op, ast.BitAnd) else (a | b)
+    """operator.and_ / or_ on bools and ints: python's bitwise operators (True & 2 == 0).  A symbolic bool against a
+    concrete int is resolved by cases (bool as 0/1); symbolic ints are not modelled."""
+    is_and = isinstance(op, ast.BitAnd)
+    f = (lambda x, y: x & y) if is_and else (lambda x, y: x | y)
+    cint = lambda x: isinstance(x, (bool, int))
+    sbool = lambda x: isinstance(x, SV) and z3.is_bool(x.e)
+    if cint(a) and cint(b):
+        return f(a, b)
+    if sbool(a) and sbool(b):
+        return I.binop(op, a, b)
+    if sbool(a) and isinstance(b, bool) or isinstance(a, bool) and sbool(b):
+        return I.binop(op, a, b)
+    if (sbool(a) and cint(b)) or (cint(a) and sbool(b)):
+        s, c = (a, b) if sbool(a) else (b, a)
+        t, e = f(1, int(c)), f(0, int(c))
+        if t == e:
+            return t
+        return SV(z3.If(s.e, z3.IntVal(t), z3.IntVal(e)))
+    if isinstance(a, SV) and cint(b) or cint(a) and isinstance(b, SV):
+        s, c = (a, b) if isinstance(a, SV) else (b, a)
+        lo, hi = _bounds(s.e)
+        if lo is not None and hi - lo <= 8:  # small symbolic int (result of an earlier step): by cases
+            r = z3.IntVal(f(hi, int(c)))
+            for v in range(hi - 1, lo - 1, -1):
+                r = z3.If(s.e == v, z3.IntVal(f(v, int(c))), r)
+            return SV(r)
     if isinstance(a, (bool, int, SV)) and isinstance(b, (bool, int, SV)):
-        za = a.e if isinstance(a, SV) else None
-        zb = b.e if isinstance(b, SV) else None
-        both_bool = all(isinstance(x, bool) or (isinstance(x, SV) and z3.is_bool(x.e)) for x in (a, b))
-        if not both_bool:
-            raise PyvcError("bitwise operator on symbolic integers is not modelled")
+        raise PyvcError("bitwise operator on symbolic integers is not modelled")
     return I.binop(op, a, b)
 
 
